@@ -47,3 +47,20 @@ Theorem C17_schedule_independent :
     option_map (iter L (count_occ Nat.eq_dec sched i) (rstep g)) (nth_error ls i).
 Proof. exact schedule_independent. Qed.
 Print Assumptions C17_schedule_independent.
+
+(* ---- generated census of process-wide mutable objects (translator
+   harness/py2v_shared.py -> gen/SharedGen.v, regenerated from poorwsgi/*.py
+   on every run): every function that stores into a module-level or
+   class-level mutable object (directly, through a `global`, a local alias,
+   or self.X for a class-level X) is one of the import-time / construction-
+   time writers listed in model/SharedState.v, and no such object (nor a
+   shallow copy of one with mutable values) is stored into an attribute or
+   item.  A syntactic under-approximation; the dynamic census of the check
+   covers the executed paths. *)
+Require Import PW.model.SharedState PW.gen.SharedGen.
+
+Theorem C17_generated_no_request_time_shared_writes :
+  (forall f o h, In (f, o, h) shared_writes -> In (f, o) allowed_writes) /\
+  shared_escapes = [].
+Proof. apply census_ok_spec. vm_compute. reflexivity. Qed.
+Print Assumptions C17_generated_no_request_time_shared_writes.
